@@ -637,8 +637,15 @@ func (h *Hist) bindResult(n *Node, got any, owners []string) bool {
 		own := owners
 		if h.isDeriving(h.curOp) {
 			own = []string{"C09"}
-			if h.curOp == "Clone" {
+			switch h.curOp {
+			case "Clone":
 				own = []string{"C08"}
+			case "Concat", "SubList":
+				// (as for frame violations: the sequence model of C05 / the map model of C06 has these operations produce a new
+				// value, so a program that goes on to modify the "result" no longer behaves like the model)
+				own = append(own, "C05")
+			case "Merge", "Pluck", "Keys", "Values":
+				own = append(own, "C06")
 			}
 		}
 		h.fail("result-not-fresh", h.curOp, own, fmt.Sprintf("%s returned the existing container %s instead of a new one", h.curOp, k.Name))
